@@ -224,6 +224,12 @@ where
 static CLEARED_TIMER_IDS: LazyLock<Mutex<HashSet<TimerId>>> =
     LazyLock::new(|| Mutex::new(HashSet::new()));
 
+/// Verification hook: size of the process-wide set of cleared timer ids (read-only).
+#[cfg(crux_verif)]
+pub fn verif_cleared_len() -> usize {
+    CLEARED_TIMER_IDS.lock().unwrap().len()
+}
+
 #[cfg(test)]
 mod test {
     use super::*;
